@@ -10,8 +10,10 @@ import json, os
 ROOT = os.path.dirname(os.path.dirname(os.path.dirname(os.path.abspath(__file__))))
 
 TY = {'u8': 'U1', 'u16': 'U2', 'u32': 'U4', 'u64': 'U8', 'bool': 'B', 'Vec<u8>': 'L(U1)', 'Vec<u16>': 'L(U2)',
-      'Vec<Vec<u8>>': 'L(L(U1))', 'Option<u16>': 'O(U2)', '[u8; 0]': 'X0'}
-WITH = {'leg_u16': ('Option<u16>', 'LO(U2)'), 'leg_vec_u16': ('Option<Vec<u16>>', 'LO(L(U2))'), 'plain_u32': ('u32', 'U4')}
+      'Vec<Vec<u8>>': 'L(L(U1))', 'Option<u16>': 'O(U2)', '[u8; 0]': 'X0',
+      'Wide': 'U4'}  # Wide: only as a skipped field or behind the wide4 module (its own codec is 8 bytes)
+WITH = {'leg_u16': ('Option<u16>', 'LO(U2)'), 'leg_vec_u16': ('Option<Vec<u16>>', 'LO(L(U2))'), 'plain_u32': ('u32', 'U4'),
+        'wide4': ('Wide', 'U4')}
 
 def F(name, ty, flags='', with_=None, attrs=None):
     """flags: 's' skip_serializing, 'd' skip_deserializing"""
@@ -38,6 +40,11 @@ STRUCTS = [
     dict(name='S14', beh=None, kind='named', fields=[F('a', 'Option<Vec<u16>>', '', 'leg_vec_u16'), F('b', 'Option<u16>', '', 'leg_u16')]),
     dict(name='S15', beh=None, kind='named', fields=[F('a', 'u8'), F('b', 'u32', '', 'plain_u32'), F('c', 'u16')]),
     dict(name='S16', beh=None, kind='named', fields=[F('b', 'u32', '', 'plain_u32'), F('v', 'Vec<u8>')]),
+    # a `with` module whose codec DIFFERS from the field type's own impl (Wide encodes natively as 8 bytes)
+    dict(name='S20', beh=None, kind='named', fields=[F('a', 'u8'), F('w', 'Wide', '', 'wide4'), F('c', 'u16')]),
+    dict(name='S21', beh=None, kind='named', fields=[F('w', 'Wide', '', 'wide4'), F('v', 'Vec<u8>')]),
+    dict(name='S22', beh=None, kind='named', fields=[F('w', 'Wide', '', 'wide4')]),
+    dict(name='S23', beh=None, kind='named', fields=[F('x', 'Wide', 'sd'), F('w', 'Wide', '', 'wide4'), F('o', 'Option<u16>', '', 'leg_u16')]),
     dict(name='S17', beh=None, kind='named', fields=[F('a', 'u8'), F('b', 'Vec<u8>'), F('c', 'u16'), F('d', 'Vec<Vec<u8>>'), F('e', 'bool'), F('f', 'Vec<u16>')]),
     dict(name='S18', beh=None, kind='named', fields=[F('z', '[u8; 0]'), F('a', 'u8'), F('y', '[u8; 0]')]),
     dict(name='S19', beh=None, kind='named', fields=[F('o', 'Option<u16>'), F('x', 'u8', 'sd'), F('l', 'Option<u16>', '', 'leg_u16')]),
@@ -163,6 +170,7 @@ def main():
 }}
 """)
         names.append(inst)
+    names += ['TagD', 'TagR', 'UnD', 'TrD']
     calls = ' '.join(f"$f::<{n}>($ctx);" for n in names)
     out.append(f"#[macro_export]\nmacro_rules! for_each_derived {{ ($f:ident, $ctx:expr) => {{{{ use $crate::derive_gen::*; {calls} }}}}; }}\n")
     open(os.path.join(ROOT, 'harness/src/derive_gen.rs'), 'w').write('\n'.join(out))
@@ -248,6 +256,103 @@ ethereum_ssz_derive = {{ path = "/repo/ssz_derive" }}
     print(len(names), 'derived definitions,', len(cases), 'compile cases')
 
 PLAIN_MOD = '''
+/// a type whose OWN codec is 8 bytes little-endian; the `wide4` module encodes it as 4 bytes
+#[derive(Clone, Copy, PartialEq, Debug, Default)]
+pub struct Wide(pub u32);
+impl ssz::Encode for Wide {
+    fn is_ssz_fixed_len() -> bool { true }
+    fn ssz_fixed_len() -> usize { 8 }
+    fn ssz_bytes_len(&self) -> usize { 8 }
+    fn ssz_append(&self, buf: &mut Vec<u8>) { buf.extend_from_slice(&(self.0 as u64).to_le_bytes()) }
+}
+impl ssz::Decode for Wide {
+    fn is_ssz_fixed_len() -> bool { true }
+    fn ssz_fixed_len() -> usize { 8 }
+    fn from_ssz_bytes(b: &[u8]) -> Result<Self, ssz::DecodeError> {
+        let x = <u64 as ssz::Decode>::from_ssz_bytes(b)?;
+        if x > u32::MAX as u64 { return Err(ssz::DecodeError::BytesInvalid("wide".into())); }
+        Ok(Wide(x as u32))
+    }
+}
+impl crate::model::Model for Wide {
+    fn desc() -> String { "U4".into() }
+    fn to_val(&self) -> String { format!("{}", self.0) }
+    fn gen(g: &mut crate::rng::Rng, size: usize) -> Self { Wide(<u32 as crate::model::Model>::gen(g, size)) }
+}
+pub mod wide4 {
+    pub mod encode {
+        use super::super::Wide;
+        pub fn is_ssz_fixed_len() -> bool { true }
+        pub fn ssz_fixed_len() -> usize { 4 }
+        pub fn ssz_bytes_len(_v: &Wide) -> usize { 4 }
+        pub fn ssz_append(v: &Wide, buf: &mut Vec<u8>) { buf.extend_from_slice(&v.0.to_le_bytes()) }
+    }
+    pub mod decode {
+        use super::super::Wide;
+        pub fn is_ssz_fixed_len() -> bool { true }
+        pub fn ssz_fixed_len() -> usize { 4 }
+        pub fn from_ssz_bytes(b: &[u8]) -> Result<Wide, ssz::DecodeError> {
+            <u32 as ssz::Decode>::from_ssz_bytes(b).map(Wide)
+        }
+    }
+}
+
+/// enums whose Rust discriminants differ from the declaration order: selectors must still be the
+/// zero-based declaration index
+#[derive(ssz_derive::Encode, ssz_derive::Decode, Clone, Copy, PartialEq, Debug)]
+#[ssz(enum_behaviour = "tag")]
+pub enum TagD { Ping = 1, Pong = 2, Goodbye = 16 }
+impl crate::derive::DModel for TagD {
+    fn name() -> &'static str { "TagD" }
+    fn def_desc() -> String { "DEg-(u:|u:|u:)".to_string() }
+    fn symmetric() -> bool { true }
+    fn to_val_all(&self) -> String { match self { TagD::Ping => "G0".into(), TagD::Pong => "G1".into(), TagD::Goodbye => "G2".into() } }
+    fn gen(g: &mut crate::rng::Rng, _size: usize) -> Self { *g.pick(&[TagD::Ping, TagD::Pong, TagD::Goodbye]) }
+}
+#[derive(ssz_derive::Encode, ssz_derive::Decode, Clone, Copy, PartialEq, Debug)]
+#[ssz(enum_behaviour = "tag")]
+pub enum TagR { C = 2, A = 0, B = 1 }
+impl crate::derive::DModel for TagR {
+    fn name() -> &'static str { "TagR" }
+    fn def_desc() -> String { "DEg-(u:|u:|u:)".to_string() }
+    fn symmetric() -> bool { true }
+    fn to_val_all(&self) -> String { match self { TagR::C => "G0".into(), TagR::A => "G1".into(), TagR::B => "G2".into() } }
+    fn gen(g: &mut crate::rng::Rng, _size: usize) -> Self { *g.pick(&[TagR::C, TagR::A, TagR::B]) }
+}
+#[derive(ssz_derive::Encode, ssz_derive::Decode, Clone, PartialEq, Debug)]
+#[ssz(enum_behaviour = "union")]
+#[repr(u8)]
+pub enum UnD { A(u8) = 5, B(Vec<u8>) = 0, C(u16) = 9 }
+impl crate::derive::DModel for UnD {
+    fn name() -> &'static str { "UnD" }
+    fn def_desc() -> String { "DEu-(u:U1|u:L(U1)|u:U2)".to_string() }
+    fn symmetric() -> bool { true }
+    fn to_val_all(&self) -> String {
+        use crate::model::Model;
+        match self { UnD::A(x) => format!("U0({})", x.to_val()), UnD::B(x) => format!("U1({})", x.to_val()), UnD::C(x) => format!("U2({})", x.to_val()) }
+    }
+    fn gen(g: &mut crate::rng::Rng, size: usize) -> Self {
+        use crate::model::Model;
+        match g.below(3) { 0 => UnD::A(u8::gen(g, size)), 1 => UnD::B(Vec::<u8>::gen(g, size)), _ => UnD::C(u16::gen(g, size)) }
+    }
+}
+#[derive(ssz_derive::Encode, ssz_derive::Decode, Clone, PartialEq, Debug)]
+#[ssz(enum_behaviour = "transparent")]
+pub enum TrD { A(Vec<u16>), B(Vec<u8>) }
+impl crate::derive::DModel for TrD {
+    fn name() -> &'static str { "TrD" }
+    fn def_desc() -> String { "DEt-(u:L(U2)|u:L(U1))".to_string() }
+    fn symmetric() -> bool { false }
+    fn to_val_all(&self) -> String {
+        use crate::model::Model;
+        match self { TrD::A(x) => format!("U0({})", x.to_val()), TrD::B(x) => format!("U1({})", x.to_val()) }
+    }
+    fn gen(g: &mut crate::rng::Rng, size: usize) -> Self {
+        use crate::model::Model;
+        if g.bool() { TrD::A(Vec::<u16>::gen(g, size)) } else { TrD::B(Vec::<u8>::gen(g, size)) }
+    }
+}
+
 /// a `with` module delegating to the field type's own impls (fixed-size codec through the
 /// `append_parameterized` / `register_type_parameterized` paths)
 pub mod plain_u32 {
